@@ -25,3 +25,8 @@ func (u *upstreams) deactivate(id string) {
 func (u *upstreams) hasActive() bool {
 	return len(u.active) > 0
 }
+
+// includes reports whether id is one of the source runners of the deployment.
+func (u *upstreams) includes(id string) bool {
+	return slices.Contains(u.all, id)
+}
